@@ -515,6 +515,12 @@ func hasMinimumBytesForKeyValuePair(remainder []byte) bool {
 	// Minimum byte length required: 2 bytes for each string length,
 	// at least 1 byte per string, one byte for =, one byte for ;
 	if len(remainder) < 6 {
+		// A key and/or value may be empty (String length may be 0), so one
+		// complete pair can be as short as 4 bytes. Such a pair at the end of
+		// a mapping must not be dropped: it was serialised and signed.
+		if isCompleteShortPair(remainder) {
+			return true
+		}
 		log.WithFields(logger.Fields{
 			"at":     "(Mapping) Values",
 			"reason": "mapping format violation",
@@ -522,6 +528,22 @@ func hasMinimumBytesForKeyValuePair(remainder []byte) bool {
 		return false
 	}
 	return true
+}
+
+// isCompleteShortPair reports whether data is exactly one well-formed key=value; pair.
+// It is only consulted for remainders shorter than six bytes.
+func isCompleteShortPair(data []byte) bool {
+	if len(data) < 4 {
+		return false
+	}
+	keyLen := int(data[0])
+	valLenAt := 1 + keyLen + 1
+	if valLenAt >= len(data) || data[1+keyLen] != MAPPING_EQUALS_DELIMITER {
+		return false
+	}
+	valLen := int(data[valLenAt])
+	end := valLenAt + 1 + valLen
+	return end+1 == len(data) && data[end] == MAPPING_SEMICOLON_DELIMITER
 }
 
 // parseKeyFromRemainder extracts a key string from the remainder data.
